@@ -190,7 +190,7 @@ type env struct {
 	bytesL map[types.Object]string // locals holding a byte-string derived from a field: "hexdec:<path>"
 	writer types.Object
 	reader types.Object
-	loopIx types.Object              // index variable of the enclosing counted loop
+	loopIx types.Object // index variable of the enclosing counted loop
 	alias  map[types.Object]ast.Expr // decode helpers: `raw := b.ReadX(n)` used once in the returned expression
 }
 
@@ -432,6 +432,7 @@ func constInt(e *env, x ast.Expr) (int64, bool) {
 	return 0, false
 }
 
+
 // bindCall prepares the environment for inlining a call to a library function whose body is
 // available: every parameter is bound to what the argument denotes in the caller — the writer, the
 // reader, (part of) the PDU value (`p.Header`, `&p.Header`, `p`), an integer expression, or the raw
@@ -494,6 +495,7 @@ func isByteSlice(t types.Type) bool {
 	b, ok := sl.Elem().Underlying().(*types.Basic)
 	return ok && b.Kind() == types.Uint8
 }
+
 
 // deref follows `x` to the expression it was defined by (decode helpers only)
 func (w *world) deref(e *env, x ast.Expr) ast.Expr {
@@ -1107,6 +1109,7 @@ func (w *world) assignRead(e *env, path string, lhsT types.Type, rhs ast.Expr) (
 	}
 	return "", false
 }
+
 
 // isReaderCall: `<reader>.<name>()`
 func (w *world) isReaderCall(e *env, x ast.Expr, name string) bool {
